@@ -1,6 +1,10 @@
 (* C06 — national check digits are judged by the country's published algorithm.  (work in progress:
    structural theorems first; per-country equivalences are added below as they are proved) *)
-From Schwifty Require Import Lib.Base Lib.Lit Model.Clean Model.Data Model.Iban Model.Bban.
+From Schwifty Require Import Lib.Base Lib.Lit Model.Clean Model.Data Model.Iban Model.Bban Model.National Model.Algorithms
+  Model.Germany Model.Lookup.
+From Schwifty Require Import Spec.Iso13616 Spec.NationalPublished.
+From Schwifty Require Import Proofs.NumFacts Proofs.IbanFacts Proofs.NationalFacts Proofs.GenObligations.
+From Schwifty Require Import Gen.Env Gen.IbanData Gen.IbanCfg Gen.ChecksumCfg Gen.GermanyTbl Gen.Banks.
 From Coq Require Import String.
 
 (* national validation can only reject: whatever is accepted with it is accepted without it *)
@@ -40,6 +44,45 @@ Proof.
   rewrite Hn. reflexivity.
 Qed.
 
+(* ---- per-country equivalences: model of BBAN.validate_national_checksum = published rule ---------- *)
+
+Definition the_german := german_class nd_runs german_table account_code_length.
+Definition the_algos := the_find_algo the_env the_iban_cfg nd_runs registered the_german.
+
+Lemma C06_alpha_obl : ic_alphabet the_iban_cfg = std_alphabet.
+Proof. vm_cast_no_check (eq_refl std_alphabet). Qed.
+
+(* only German bank entries name a checksum algorithm *)
+Lemma C06_onlyde_obl : algo_only_for (tx "DE") the_banks = true.
+Proof. vm_cast_no_check (eq_refl true). Qed.
+
+(* ISO 7064 mod 97-10 over the whole BBAN: Bosnia and Herzegovina, Montenegro, North Macedonia, Portugal,
+   Serbia, Slovenia, Timor-Leste.  Obligation per country: registered with that class, the accepted fields
+   followed by the two check digits tile the BBAN, the check field is numeric. *)
+Definition iso97_countries : list text := [tx "BA"; tx "ME"; tx "MK"; tx "PT"; tx "RS"; tx "SI"; tx "TL"].
+Definition iso97_obl (cc : text) : bool :=
+  negb (text_eqb cc (tx "DE")) &&
+  match find_row the_table cc, registered_as registered cc "iso7064_mod97_10.DefaultAlgorithm" with
+  | Some r, Some accepts => layout_prefix r accepts 2 && ends_with_two_digits r
+  | _, _ => false
+  end.
+Lemma C06_iso97_obl : forallb iso97_obl iso97_countries = true.
+Proof. vm_cast_no_check (eq_refl true). Qed.
+
+Theorem C06_iso97 : forall cc r b,
+  In cc iso97_countries -> find_row the_table cc = Some r -> conforms_row r b = true ->
+  validate_national the_table the_algos (bank_code_entries the_banks) cc b =
+  if pub_iso97 b then Ok true else Err EInvalidBBANChecksum.
+Proof.
+  intros cc r b Hin Er Hc. pose proof C06_iso97_obl as O. rewrite forallb_forall in O. specialize (O cc Hin).
+  unfold iso97_obl in O. rewrite Er in O. apply andb_true_iff in O as [Hde O]. apply negb_true_iff in Hde.
+  destruct (registered_as registered cc "iso7064_mod97_10.DefaultAlgorithm") as [accepts|] eqn:Ereg; [|discriminate].
+  apply andb_true_iff in O as [Hlay Hend].
+  exact (iso97_country the_env the_iban_cfg the_table the_banks nd_runs registered the_german
+           table_obl C06_alpha_obl C06_onlyde_obl cc r accepts b Hde Er Hc Ereg Hlay Hend).
+Qed.
+
+Print Assumptions C06_iso97.
 Print Assumptions C06_only_rejects.
 Print Assumptions C06_returns_true.
 Print Assumptions C06_unaffected.
